@@ -24,6 +24,8 @@ structure Foot (c' : Nat) (s s' : State) : Prop where
   pubs     : ∀ k g x p, s.bc.rcvs c' = .waiting k g x → s'.bc.pubs p = s.bc.pubs p ∨
                ((∀ pk v, s.bc.pubs p ≠ .holding pk v g) ∧ (∀ pk v, s'.bc.pubs p ≠ .holding pk v g))
   cllock   : s'.clLock = s.clLock
+  invokes  : s'.invokes = s.invokes
+  running  : s'.running = s.running
 
 /-- when the stub's `Receive` step can run at all (whatever `Receive` answers) -/
 theorem callReceive_isSome (sk : Skeleton) (t : State) (c : Nat) :
@@ -41,7 +43,7 @@ theorem callReceive_isSome (sk : Skeleton) (t : State) (c : Nat) :
 
 theorem foot_enabled (sk : Skeleton) {s s' : State} (c' : Nat) (hf : Foot c' s s') (b : Act)
     (hb : actCall b = some c') : (step sk s' b).isSome = (step sk s b).isSome := by
-  obtain ⟨f1, f2, f3, f4, f5, f6, f7, f8, f9, f10, f11, f12, f13⟩ := hf
+  obtain ⟨f1, f2, f3, f4, f5, f6, f7, f8, f9, f10, f11, f12, f13, f14, f15⟩ := hf
   cases b with
   | waiterGetsDone c =>
     simp [actCall] at hb; subst hb
@@ -72,7 +74,7 @@ theorem foot_enabled (sk : Skeleton) {s s' : State} (c' : Nat) (hf : Foot c' s s
     simp [actCall] at hb; subst hb
     rw [callReceive_isSome, callReceive_isSome, f1, f2, f3, f6, f10]
   | _ =>
-    simp [actCall] at hb <;> subst hb <;> simp only [step, Bc.step, releases, newClosures, f1, f2, f3, f4, f5, f6, f7, f8, f9, f10, f13] <;>
+    simp [actCall] at hb <;> subst hb <;> simp only [step, Bc.step, releases, canRelease, noneRunning, newClosures, f1, f2, f3, f4, f5, f6, f7, f8, f9, f10, f13, f14, f15] <;>
       first | rfl | grind
 
 theorem foot_aux (sk : Skeleton) {s s' : State} (a : Act) (hs : step sk s a = some s')
@@ -89,6 +91,12 @@ theorem foot_aux (sk : Skeleton) {s s' : State} (a : Act) (hs : step sk s a = so
   all_goals (refine ⟨?_, ?_, ?_, ?_, ?_⟩ <;> (try rfl) <;> (try (intros; rfl)) <;> (try (intros; exact Or.inl rfl)))
   all_goals (intros <;> grind [upd_apply, Bc.Rcv.binding])
 
+/-- a step of a call thread (stub or waiter) invokes no closure and ends no closure body -/
+theorem call_step_keeps_invocations (sk : Skeleton) {s s' : State} (a : Act) (hs : step sk s a = some s')
+    (c : Nat) (ha : actCall a = some c) : s'.invokes = s.invokes ∧ s'.running = s.running := by
+  cases a <;> simp [actCall] at ha <;> simp only [step] at hs
+  all_goals (repeat' split at hs) <;> (try simp at hs) <;> (try subst hs) <;> (try exact ⟨rfl, rfl⟩)
+
 /-- A step of call `c` (stub or waiter) leaves the footprint of every other call untouched. -/
 theorem foot_of_step (sk : Skeleton) (hv : Live sk) {s s' : State} (hr : Reach sk s) (a : Act)
     (hs : step sk s a = some s') (c c' : Nat) (ha : actCall a = some c) (hne : c' ≠ c) : Foot c' s s' := by
@@ -97,8 +105,9 @@ theorem foot_of_step (sk : Skeleton) (hv : Live sk) {s s' : State} (hr : Reach s
   obtain ⟨hc', hbc', hlk'⟩ := alive sk hv hr'
   obtain ⟨o1, o2, o3, o4, _⟩ := others_frame sk a hs c c' ha hne
   obtain ⟨a1, a2, a3, a4, a5⟩ := foot_aux sk a hs (reach_wf sk hr) (reach_lk sk hr) c c' ha hne
+  obtain ⟨i1, i2⟩ := call_step_keeps_invocations sk a hs c ha
   exact ⟨by rw [hc, hc'], by rw [hbc, hbc'], by rw [hlk, hlk'], a1, a2, o1, o2, o3, a3, o4, a4, a5,
-    by rw [cl_free sk hv hr, cl_free sk hv hr']⟩
+    by rw [cl_free sk hv hr, cl_free sk hv hr'], i1, i2⟩
 
 /-- …hence does not change which steps of another call (and of its waiter) are enabled. -/
 theorem others_enabled (sk : Skeleton) (hv : Live sk) {s s' : State} (hr : Reach sk s) (a b : Act)
